@@ -88,6 +88,11 @@ var whitelist = []FuncSpec{
 	{"pkg/provider", "IdentityProvider", "errorResponse"},
 	{"pkg/provider", "IdentityProvider", "callbackHandleFunc"},
 	{"pkg/provider", "Response", "sendBackResponse"},
+	{"pkg/provider", "LogoutResponse", "makeFailedLogoutResponse"},
+	{"pkg/provider", "LogoutResponse", "makeSuccessfulLogoutResponse"},
+	{"pkg/provider", "LogoutResponse", "sendBackLogoutResponse"},
+	{"pkg/provider", "", "getLogoutRequestFromRequest"},
+	{"pkg/provider", "IdentityProvider", "logoutHandleFunc"},
 }
 
 // extraFields are struct fields the hand-written handler models read although no translated function does.
@@ -483,6 +488,18 @@ type tctx struct {
 	writeSites int
 	// wbOK: the call being translated sits in a statement position that writes in-out values back
 	wbOK bool
+	// chain handlers: variables of type checker.Checker, the registered steps (Lean terms), the closures emitted as
+	// definitions over the handler frame, the closure being translated, the statements of the function's top level
+	chk      map[types.Object]bool
+	steps    []string
+	cloDefs  []string
+	clo      *cloCtx
+	topLevel map[ast.Stmt]bool
+}
+
+// cloCtx: the closure literal whose body is being translated (its `return` hands back the value and the frame)
+type cloCtx struct {
+	res []types.Type
 }
 
 type frameField struct {
@@ -580,7 +597,14 @@ func (w *world) translate(f *fn) {
 	}
 	c.nret = len(rts)
 	w.scanInout(f)
-	c.hasEff = f.body != nil && hasEffects(f.body, f.pkg.TypesInfo)
+	c.hasEff = f.body != nil && (hasEffects(f.body, f.pkg.TypesInfo) || usesChecker(f.body, f.pkg.TypesInfo))
+	c.chk = map[types.Object]bool{}
+	c.topLevel = map[ast.Stmt]bool{}
+	if f.body != nil {
+		for _, st := range f.body.List {
+			c.topLevel[st] = true
+		}
+	}
 	all := append([]string{}, rts...)
 	for _, p := range f.inout {
 		all = append(all, p.leanTy)
@@ -625,6 +649,12 @@ func (w *world) translate(f *fn) {
 			fmt.Fprintf(&sb, "  %s : %s := %s\n", fl.name, fl.ty, fl.dflt)
 		}
 	}
+	for _, d := range c.cloDefs {
+		sb.WriteString("\n" + d)
+	}
+	if len(c.steps) > 0 {
+		fmt.Fprintf(&sb, "\n/-- the validation chain: one `Go.Step` per `checkerInstance.WithXxx(…)` call, in registration order -/\ndef chain (o : Ora) : List (Go.Step Frame) := [\n  %s]\n", strings.Join(c.steps, ",\n  "))
+	}
 	fmt.Fprintf(&sb, "\ndef body (o : Ora) (s : Frame) : Ctl Frame (%s) :=\n%s\nend %s\n\n", c.retTy, body, f.lean)
 	dflt := "default"
 	fmt.Fprintf(&sb, "/-- translated from %s -/\ndef %s (o : Ora) %s : Res (%s) :=\n  (%s.body o { %s }).toRes %s\n",
@@ -664,6 +694,19 @@ func (c *tctx) stmts(list []ast.Stmt, ind string) string {
 	switch s := st.(type) {
 	case *ast.ReturnStmt:
 		var vs []val
+		if c.clo != nil {
+			switch len(s.Results) {
+			case 0:
+				return ind + ".ret ((), s)"
+			case 1:
+				if len(c.clo.res) != 1 {
+					panic("closure return arity")
+				}
+				v := c.exprAs(s.Results[0], c.clo.res[0])
+				return guardWrap(v.g, ind, fmt.Sprintf("%s.ret (%s, s)", ind, v.e))
+			}
+			panic("closure with more than one result")
+		}
 		if len(s.Results) == 0 {
 			// naked return with named results
 			sig := c.f.obj.Type().(*types.Signature)
@@ -707,6 +750,9 @@ func (c *tctx) stmts(list []ast.Stmt, ind string) string {
 		if c.skippableCall(s.X) {
 			return c.stmts(rest, ind)
 		}
+		if c.chainRegistration(st, s.X) {
+			return c.stmts(rest, ind)
+		}
 		if c.hasEff {
 			if v, ok := c.effectCall(s.X); ok {
 				return guardWrap(v.g, ind, fmt.Sprintf("%slet s := { s with eff_ := s.eff_ ++ [%s] };\n%s", ind, v.e, c.stmts(rest, ind)))
@@ -742,6 +788,14 @@ func (c *tctx) stmts(list []ast.Stmt, ind string) string {
 	case *ast.IfStmt:
 		if s.Init != nil {
 			return c.stmts(append([]ast.Stmt{s.Init, &ast.IfStmt{Cond: s.Cond, Body: s.Body, Else: s.Else}}, rest...), ind)
+		}
+		if c.isCheckFailed(s.Cond) {
+			if s.Else != nil || c.clo != nil {
+				panic("unsupported use of CheckFailed")
+			}
+			thenB := c.stmts(s.Body.List, ind+"        ")
+			ite := fmt.Sprintf("%s      (if failed_ then\n%s\n%s      else\n%s        .next s)", ind, thenB, ind, ind)
+			return fmt.Sprintf("%smatch Go.runChain (chain o) s with\n%s| .panic => .panic\n%s| .ok (failed_, s) =>\n%s", ind, ind, ind, c.seqText(ite, rest, ind+"    "))
 		}
 		cond := c.expr(s.Cond)
 		thenB := c.stmts(s.Body.List, ind+"    ")
@@ -850,6 +904,148 @@ func (c *tctx) stmts(list []ast.Stmt, ind string) string {
 		return guardWrap(xs.g, ind, c.seqText(loop, rest, ind))
 	}
 	panic(fmt.Sprintf("unsupported statement %T", st))
+}
+
+func isCheckerType(t types.Type) bool {
+	if t == nil {
+		return false
+	}
+	if p, ok := t.(*types.Pointer); ok {
+		t = p.Elem()
+	}
+	n, ok := t.(*types.Named)
+	return ok && n.Obj().Pkg() != nil && strings.HasSuffix(n.Obj().Pkg().Path(), "pkg/provider/checker") && n.Obj().Name() == "Checker"
+}
+
+// usesChecker: does the body declare a checker.Checker (a chain handler)
+func usesChecker(body *ast.BlockStmt, info *types.Info) bool {
+	found := false
+	ast.Inspect(body, func(n ast.Node) bool {
+		if cl, ok := n.(*ast.CompositeLit); ok && isCheckerType(info.TypeOf(cl)) {
+			found = true
+		}
+		return true
+	})
+	return found
+}
+
+func (c *tctx) checkerMethod(e ast.Expr) (*ast.CallExpr, string, bool) {
+	x, ok := e.(*ast.CallExpr)
+	if !ok {
+		return nil, "", false
+	}
+	sel, ok := x.Fun.(*ast.SelectorExpr)
+	if !ok {
+		return nil, "", false
+	}
+	id, ok := sel.X.(*ast.Ident)
+	if !ok || !c.chk[c.info.Uses[id]] {
+		return nil, "", false
+	}
+	return x, sel.Sel.Name, true
+}
+
+func (c *tctx) isCheckFailed(e ast.Expr) bool {
+	_, name, ok := c.checkerMethod(e)
+	return ok && name == "CheckFailed"
+}
+
+// chainRegistration handles `checkerInstance.WithXxx(args…)`: the step is appended to the chain definition; the
+// statement itself has no effect on the frame (registration does not run a closure).  The Lean side of a step is the
+// function of Model.Checker with the method's name (first letter lowered); value names (strings) are dropped there.
+func (c *tctx) chainRegistration(st ast.Stmt, e ast.Expr) bool {
+	x, name, ok := c.checkerMethod(e)
+	if !ok || !strings.HasPrefix(name, "With") {
+		return false
+	}
+	if !c.topLevel[st] || c.clo != nil {
+		panic("chain step registered conditionally: " + c.src(e))
+	}
+	sel := c.info.Selections[x.Fun.(*ast.SelectorExpr)]
+	sig := sel.Obj().Type().(*types.Signature)
+	var args []string
+	for i := 0; i < sig.Params().Len(); i++ {
+		pt := sig.Params().At(i).Type()
+		a := x.Args[i]
+		switch t := pt.Underlying().(type) {
+		case *types.Signature:
+			if t.Params().Len() != 0 || t.Results().Len() > 1 {
+				panic("unsupported closure type in chain step")
+			}
+			var rt types.Type
+			if t.Results().Len() == 1 {
+				rt = t.Results().At(0).Type()
+			}
+			n := c.closure(a, rt)
+			args = append(args, fmt.Sprintf("(%s o)", n))
+		case *types.Basic:
+			if t.Info()&types.IsString != 0 {
+				continue // value name: only logged
+			}
+			v, isConst := c.constVal(a)
+			if !isConst {
+				panic("non-constant chain step argument " + c.src(a))
+			}
+			args = append(args, v)
+		default:
+			panic("unsupported chain step argument " + c.src(a))
+		}
+	}
+	lname := strings.ToLower(name[:1]) + name[1:]
+	c.steps = append(c.steps, fmt.Sprintf(".%s %s", lname, strings.Join(args, " ")))
+	return true
+}
+
+// closure translates a closure over the handler frame - a literal `func() T { … }` or the value of a translated
+// closure-returning function applied to getter literals - into a definition `cloK (o : Ora) : Go.Clo Frame T` and
+// returns its name.
+func (c *tctx) closure(e ast.Expr, rt types.Type) string {
+	k := len(c.cloDefs)
+	name := fmt.Sprintf("clo%d", k)
+	c.cloDefs = append(c.cloDefs, "") // reserve the slot (closures may nest)
+	ty := "Unit"
+	if rt != nil {
+		ty = c.w.leanType(rt)
+	}
+	var body string
+	switch x := e.(type) {
+	case *ast.FuncLit:
+		old := c.clo
+		c.clo = &cloCtx{}
+		if rt != nil {
+			c.clo.res = []types.Type{rt}
+		}
+		body = c.stmts(x.Body.List, "    ")
+		c.clo = old
+		if rt == nil {
+			body = fmt.Sprintf("    Ctl.seq\n    (\n%s)\n      fun s =>\n      .ret ((), s)", body)
+		}
+		body = "  Go.Ctl.toClo (\n" + body + ")"
+	case *ast.CallExpr:
+		callee := c.calleeFn(x.Fun)
+		if callee == nil || callee.inner == nil {
+			panic("unsupported closure value " + c.src(e))
+		}
+		v := c.callTranslated(callee, x)
+		body = fmt.Sprintf("  .ok (%s, s)", v.e)
+		if len(v.g) > 0 {
+			body = fmt.Sprintf("  if %s then .panic else\n%s", orGuards(v.g), body)
+		}
+	default:
+		panic("unsupported closure value " + c.src(e))
+	}
+	c.cloDefs[k] = fmt.Sprintf("/-- %s -/\ndef %s (o : Ora) : Go.Clo Frame (%s) := fun s =>\n%s\n", strings.ReplaceAll(strings.ReplaceAll(firstLine(c.src(e)), "-/", "- /"), "/-", "/ -"), name, ty, body)
+	return name
+}
+
+func firstLine(s string) string {
+	if i := strings.Index(s, "\n"); i >= 0 {
+		return s[:i] + " …"
+	}
+	if len(s) > 160 {
+		return s[:160] + " …"
+	}
+	return s
 }
 
 var boundPtrs = map[types.Object]bool{}
@@ -1007,7 +1203,21 @@ func (c *tctx) effectResultCall(e ast.Expr) (eff val, result string, ok bool) {
 		return val{}, "", false
 	}
 	a := c.expr(x.Args[1])
-	reg(name, []string{c.w.leanType(c.info.TypeOf(x.Args[1]))})
+	aty := c.w.leanType(c.info.TypeOf(x.Args[1]))
+	if prev, has := c.w.effs[name]; has && (len(prev) != 1 || prev[0] != aty) {
+		// the same kind of write with another payload type (the logout page's form): its own constructor
+		if ns := namedStruct(c.info.TypeOf(x.Args[1])); ns != nil {
+			name += "_" + ns.Obj().Name()
+		} else {
+			name += "_" + strings.Map(func(r rune) rune {
+				if r == ' ' || r == '(' || r == ')' || r == '.' {
+					return -1
+				}
+				return r
+			}, aty)
+		}
+	}
+	reg(name, []string{aty})
 	o := c.oracle("writeErr", "String → Nat → Err", "the error a write to the client returns (xml.Write, template.Execute), by calling function and call site")
 	k := c.writeSites
 	c.writeSites++
@@ -1052,7 +1262,7 @@ func hasEffects(body *ast.BlockStmt, info *types.Info) bool {
 var outParamMethods = map[string]int{"SetUserinfoWithUserID": 1, "SetUserinfoWithLoginName": 0}
 
 // funcOracles: untranslated package-level functions that may be called as oracles (typed by their Go signature)
-var funcOracles = map[string]bool{"createRedirectSignature": true, "createPostSignature": true, "Marshal": true, "DeflateAndBase64": true}
+var funcOracles = map[string]bool{"createRedirectSignature": true, "createPostSignature": true, "Marshal": true, "DeflateAndBase64": true, "DecodeLogoutRequest": true, "DecodeAuthNRequest": true, "DecodeAttributeQuery": true}
 
 // scanInout finds the pointer parameters of f that the body assigns through, directly or by passing them to a
 // translated callee that does (callees are translated first: whitelist order).
@@ -1328,6 +1538,14 @@ func (c *tctx) pathUpdate(lhs ast.Expr, rhs ast.Expr) (string, string, []string)
 
 func (c *tctx) assign(s *ast.AssignStmt, rest []ast.Stmt, ind string) string {
 	tok := s.Tok.String()
+	if len(s.Lhs) == 1 && len(s.Rhs) == 1 && isCheckerType(c.info.TypeOf(s.Rhs[0])) {
+		// checkerInstance := checker.Checker{}: the chain is collected from the registrations that follow
+		if cl, ok := s.Rhs[0].(*ast.CompositeLit); !ok || len(cl.Elts) != 0 || tok != ":=" {
+			panic("unsupported checker initialisation")
+		}
+		c.chk[c.info.Defs[s.Lhs[0].(*ast.Ident)]] = true
+		return c.stmts(rest, ind)
+	}
 	lhsName := func(e ast.Expr, ty types.Type) string {
 		id, ok := e.(*ast.Ident)
 		if !ok {
@@ -1352,6 +1570,28 @@ func (c *tctx) assign(s *ast.AssignStmt, rest []ast.Stmt, ind string) string {
 			return c.newLocal(obj, obj.Type())
 		}
 		panic("assignment to non-local " + id.Name)
+	}
+	if len(s.Lhs) == 2 && len(s.Rhs) == 1 {
+		// _, ok := r.URL.Query()[key]: presence of a parameter in the query of the request being served (oracle)
+		if ix, ok := s.Rhs[0].(*ast.IndexExpr); ok {
+			if call, ok := ix.X.(*ast.CallExpr); ok && c.src(call.Fun) != "" {
+				if sel, ok := call.Fun.(*ast.SelectorExpr); ok && sel.Sel.Name == "Query" {
+					if inner, ok := sel.X.(*ast.SelectorExpr); ok && inner.Sel.Name == "URL" && isIgnoredType(c.info.TypeOf(inner.X)) {
+						if id, ok := s.Lhs[0].(*ast.Ident); !ok || id.Name != "_" {
+							panic("value of a query parameter read through r.URL.Query()")
+						}
+						k := c.expr(ix.Index)
+						o := c.oracle("urlQueryHas", "String → Bool", "_, ok := r.URL.Query()[name] of the request being served")
+						n := lhsName(s.Lhs[1], nil)
+						out := ""
+						if n != "" {
+							out = fmt.Sprintf("%slet s := { s with %s := (%s %s) };\n", ind, n, o, k.e)
+						}
+						return guardWrap(k.g, ind, out+c.stmts(rest, ind))
+					}
+				}
+			}
+		}
 	}
 	if tok == "+=" {
 		n := lhsName(s.Lhs[0], nil)
@@ -2400,7 +2640,7 @@ const header = "-- GENERATED by /verif/tools/cmd/go2lean from /repo's working tr
 func (w *world) emitLean() string {
 	var sb strings.Builder
 	sb.WriteString(header)
-	sb.WriteString("import SamlModel.GoSem\nimport SamlModel.Lib.Strings\nimport SamlModel.Lib.Base64\nimport SamlModel.Lib.Stream\n\nopen Go\nset_option linter.unusedVariables false\n\nnamespace Gen\n\n")
+	sb.WriteString("import SamlModel.GoSem\nimport SamlModel.ChainSem\nimport SamlModel.Lib.Strings\nimport SamlModel.Lib.Base64\nimport SamlModel.Lib.Stream\n\nopen Go\nset_option linter.unusedVariables false\n\nnamespace Gen\n\n")
 	// touch all field types first so that nested structs are registered
 	changed := true
 	for changed {
